@@ -566,11 +566,13 @@ func (e *Engine) havocLoc(st *State, pctx *evalCtx, ex Expr) {
 func (e *Engine) havocRegion(st *State, et types.Type, ref, off, n *Term) {
 	pi := &PtrInfo{Ref: ref, Root: arrRoot(et), Path: []Step{{Idx: BVConst(0, 64)}}, Elem: et}
 	st.walk(pi, et, func(key string, idx []*Term, s *Sort) {
-		old := st.cellArr(key, 2, s)
+		ni := len(idx) // 2 for plain element cells, more for cells inside array-typed fields of the element
+		w := 64 * ni
+		old := st.cellArr(key, ni, s)
 		nw := FreshVar("Hr|"+key, old.S)
-		j := Bound("j", BV(128))
-		jr := Extract(127, 64, j)
-		ji := Extract(63, 0, j)
+		j := Bound("j", BV(w))
+		jr := Extract(w-1, w-64, j)
+		ji := Extract(w-65, w-128, j)
 		inR := And(Eq(jr, ref), Ule(off, ji), Ult(Sub(ji, off), n))
 		st.assume(Forall([]*Term{j}, Or(inR, Eq(Select(nw, j), Select(old, j)))))
 		st.mem[key] = nw
